@@ -104,6 +104,9 @@ func c13(r *Report) propMeta {
 	r.Rule("C13.R6", "error discipline on bank/distribution keepers")
 	r.ErrorsNotDropped("bank-errors", []string{"x/oracle", "x/bandtss", "x/tunnel", "x/restake", "x/feeds", "x/tss", "x/globalfee", "x/bank"}, []string{"BankKeeper.", "DistrKeeper.", "bankkeeper.", "StakingKeeper.Delegate"}, 15)
 
+	r.Rule("C13.R7", "store-key agreement: every point read/delete addresses a written key family")
+	r.StoreKeyAgreement("store-keys", "oracle", 14, nil)
+
 	return propMeta{
 		Decided: []string{
 			"R1 feeCollector.Collect: every denom of the running total is compared with the limit before the single SendCoins(payer -> treasury, this fee); failing edge returns an error and reaches no transfer",
@@ -112,6 +115,7 @@ func c13(r *Report) propMeta {
 			"R4 OnSigningCompleted pays stored FeePerSigner from the bandtss module to each assigned member only under mapping!=0, signingID==CurrentGroupSigningID, fee non-zero, after deleting the mapping; OnSigningFailed/Timeout reach no bank call",
 			"R5 escrow + signing creation reachable from end-block are under a conditional-commit boundary",
 			"R6 no bank/distribution keeper error is discarded in the x/ modules",
+			"R7 every KV-store Get/Has/Delete of x/oracle uses a key builder of x/oracle/types that some Set of the module also uses (a probe of an iteration prefix or of a sibling family is always-empty state)",
 		},
 		Undecided: []string{"exactness at limit-1/limit/limit+1 per denom (Coins arithmetic)", "escrow conservation across retries and transitions (history)", "that Threshold at completion equals Threshold at request (store invariant)"},
 		Assume:    []string{"bank Send* conserve supply and are all-or-nothing per call", "msg handlers atomic; CacheContext isolation"},
